@@ -99,3 +99,142 @@ fn c10_typecode_mapping() {
         }
     }
 }
+
+// ---------------------------------------------------------------------------------------------
+// Item rules: known typecodes carry exactly their length, P2SH is not a viewing-key item, unknown
+// typecodes are preserved verbatim, typecodes above 0x02000000 are refused.
+// ---------------------------------------------------------------------------------------------
+use zcash_address::unified::{Fvk, Ivk};
+
+/// Error paths build their messages with format!; the text is not the subject here.
+fn format_stub(_args: core::fmt::Arguments<'_>) -> String {
+    String::new()
+}
+
+macro_rules! item_rules {
+    ($name:ident, $len:expr) => {
+        #[kani::proof]
+        #[kani::stub(alloc::fmt::format, format_stub)]
+        #[kani::unwind(4)]
+        fn $name() {
+            const L: usize = $len;
+            let t: u32 = kani::any();
+            let d: [u8; L] = [0x5A; L];
+            let in_range = t <= 0x0200_0000;
+            // addresses: P2PKH/P2SH 20 bytes, Sapling/Orchard 43 bytes
+            let r = Receiver::try_from((t, &d[..]));
+            let want_r = in_range && match t {
+                0 | 1 => L == 20,
+                2 | 3 => L == 43,
+                _ => true,
+            };
+            assert!(r.is_ok() == want_r);
+            if let Ok(Receiver::Unknown { typecode, data }) = &r {
+                assert!(*typecode == t && t >= 4 && data.len() == L);
+            }
+            core::mem::forget(r);
+            // incoming viewing keys: P2PKH 65, Sapling/Orchard 64, P2SH never
+            let i = Ivk::try_from((t, &d[..]));
+            let want_i = in_range && match t {
+                0 => L == 65,
+                1 => false,
+                2 | 3 => L == 64,
+                _ => true,
+            };
+            assert!(i.is_ok() == want_i);
+            core::mem::forget(i);
+            // full viewing keys: P2PKH 65, Sapling 128, Orchard 96, P2SH never
+            let f = Fvk::try_from((t, &d[..]));
+            let want_f = in_range && match t {
+                0 => L == 65,
+                1 => false,
+                2 => L == 128,
+                3 => L == 96,
+                _ => true,
+            };
+            assert!(f.is_ok() == want_f);
+            core::mem::forget(f);
+            kani::cover!(t == 1);
+            kani::cover!(t == 0x0200_0001);
+            kani::cover!(t == 7);
+        }
+    };
+}
+//@ {"p":"C10","tier":"quick","clause":"unified item rules for a 20-byte item: accepted as an address receiver for typecodes 0/1 and any unknown typecode <= 0x02000000, refused for Sapling/Orchard (wrong length) and above the range; as a viewing-key item only for unknown typecodes; typecode 1 (P2SH) is never a viewing-key item","bounds":"all u32 typecodes; item length 20 (payload concrete)","assume":"stub: alloc::fmt::format (error message text)","covers":3,"t":600,"stub":true}
+item_rules!(c10_item_rules_20, 20);
+//@ {"p":"C10","tier":"quick","clause":"same for a 43-byte item (Sapling/Orchard receivers)","bounds":"all u32 typecodes; item length 43","assume":"stub: alloc::fmt::format","covers":3,"t":600,"stub":true}
+item_rules!(c10_item_rules_43, 43);
+//@ {"p":"C10","tier":"quick","clause":"same for a 64-byte item (Sapling/Orchard incoming viewing keys)","bounds":"all u32 typecodes; item length 64","assume":"stub: alloc::fmt::format","covers":3,"t":600,"stub":true}
+item_rules!(c10_item_rules_64, 64);
+//@ {"p":"C10","tier":"quick","clause":"same for a 65-byte item (transparent viewing keys)","bounds":"all u32 typecodes; item length 65","assume":"stub: alloc::fmt::format","covers":3,"t":600,"stub":true}
+item_rules!(c10_item_rules_65, 65);
+//@ {"p":"C10","tier":"thorough","clause":"same for 96- and 128-byte items (Orchard / Sapling full viewing keys)","bounds":"all u32 typecodes; item length 96","assume":"stub: alloc::fmt::format","covers":3,"t":600,"stub":true}
+item_rules!(c10_item_rules_96, 96);
+//@ {"p":"C10","tier":"thorough","clause":"same for 128-byte items","bounds":"all u32 typecodes; item length 128","assume":"stub: alloc::fmt::format","covers":3,"t":600,"stub":true}
+item_rules!(c10_item_rules_128, 128);
+
+// ---------------------------------------------------------------------------------------------
+// Container byte layer (through the hook): after un-jumbling, the last 16 bytes must be the HRP
+// followed by zeros, and what precedes them must be tiled exactly by the items. F4Jumble itself is
+// decided in c10_f4jumble.rs; here it is replaced by the identity so that the solver sees the bytes
+// the parser sees.
+// ---------------------------------------------------------------------------------------------
+fn jumble_identity(_m: &mut [u8]) -> Result<(), f4jumble::Error> {
+    Ok(())
+}
+
+macro_rules! container_padding {
+    ($name:ident, $hrp:expr) => {
+        #[kani::proof]
+        #[kani::stub(f4jumble::f4jumble_inv_mut, jumble_identity)]
+        #[kani::stub(alloc::fmt::format, format_stub)]
+        #[kani::unwind(18)]
+        fn $name() {
+            use zcash_address::verif_hooks::address_parse_items;
+            let hrp: &str = $hrp;
+            let mut buf = [0x5Au8; 2 + 43 + 16];
+            buf[0] = 2;
+            buf[1] = 43;
+            buf[2] = kani::any();
+            buf[44] = kani::any();
+            let pad: [u8; 16] = kani::any();
+            buf[45..].copy_from_slice(&pad);
+            let mut want = true;
+            let hb = hrp.as_bytes();
+            let mut i = 0;
+            while i < 16 {
+                let e = if i < hb.len() { hb[i] } else { 0 };
+                if pad[i] != e {
+                    want = false;
+                }
+                i += 1;
+            }
+            let r = address_parse_items(hrp, &buf[..]);
+            if want {
+                assert!(r.is_ok());
+            } else {
+                assert!(r.is_err());
+            }
+            if let Ok(items) = &r {
+                assert!(items.len() == 1);
+                match &items[0] {
+                    Receiver::Sapling(d) => {
+                        assert!(d[0] == buf[2] && d[42] == buf[44] && d[1] == 0x5A && d[41] == 0x5A);
+                    }
+                    _ => panic!("wrong item kind"),
+                }
+                kani::cover!(true);
+            } else {
+                kani::cover!(pad[15] != 0 && pad[0] == b'u');
+                kani::cover!(pad[15] == 0 && pad[14] == 0 && pad[0] == b'u' && pad[1] == 0 && pad[8] == 1);
+            }
+            core::mem::forget(r);
+        }
+    };
+}
+//@ {"p":"C10","tier":"quick","clause":"unified address container bytes = one Sapling item (typecode 2, length 43) followed by 16 padding bytes: accepted iff the padding is exactly the HRP followed by zero bytes; on success the single item is the Sapling receiver with the 43 payload bytes","bounds":"HRP u; all 16 padding bytes symbolic; payload bytes: first and last symbolic, rest concrete; framing bytes concrete","assume":"stubs: f4jumble::f4jumble_inv_mut = identity (decided separately), alloc::fmt::format","covers":3,"t":1800,"stub":true,"replay":"model","unwindset":{"memcmp.0":45,"SealedContainer>::parse_items.0":2,"drop_glue::<[zcash_address::unified::Receiver]>.0":2}}
+container_padding!(c10_container_padding_main, "u");
+//@ {"p":"C10","tier":"thorough","clause":"same for the regtest HRP","bounds":"HRP uregtest; all 16 padding bytes symbolic","assume":"stubs: f4jumble::f4jumble_inv_mut = identity, alloc::fmt::format","covers":3,"t":1800,"stub":true,"replay":"model","unwindset":{"memcmp.0":45,"SealedContainer>::parse_items.0":2,"drop_glue::<[zcash_address::unified::Receiver]>.0":2}}
+container_padding!(c10_container_padding_regtest, "uregtest");
+//@ {"p":"C10","tier":"thorough","clause":"same for the testnet HRP","bounds":"HRP utest; all 16 padding bytes symbolic","assume":"stubs: f4jumble::f4jumble_inv_mut = identity, alloc::fmt::format","covers":3,"t":1800,"stub":true,"replay":"model","unwindset":{"memcmp.0":45,"SealedContainer>::parse_items.0":2,"drop_glue::<[zcash_address::unified::Receiver]>.0":2}}
+container_padding!(c10_container_padding_test, "utest");
